@@ -174,6 +174,7 @@ type JL struct {
 	adm                      *sw.Admission
 	admW                     *sw.World
 	rekillRefused            int
+	hung                     bool // a pass blocked for good: the run is abandoned
 }
 
 // admission returns the real webhooks bound to the current world's caches.
@@ -655,6 +656,8 @@ func (j *JL) Apply(l Label) bool {
 		if !w.Inf.Pods.Deliver() {
 			return false
 		}
+	case "FailDeletes": // the next two Pod deletes of the controller fail (API fault on calls that the harness does not gate)
+		w.API.FailPodDeletes = 2
 	case "PodWatchBreak": // the Pod watch breaks: undelivered Pod events are lost, the informer lists again (tombstones for vanished Pods)
 		if w.Inf.Pods.Pending() == 0 {
 			return false
@@ -676,6 +679,7 @@ func (j *JL) Apply(l Label) bool {
 		}
 		seg := j.P.SyncBegin("job", k)
 		j.emit("SyncBegin", l, &seg)
+		j.checkHung()
 		return true
 	case "Step":
 		if j.P.Stp == nil {
@@ -689,6 +693,7 @@ func (j *JL) Apply(l Label) bool {
 		}
 		seg := j.P.Step(faultErr(l.F))
 		j.emit("Step", l, &seg)
+		j.checkHung()
 		return true
 	case "CrashRestart":
 		w.Crash()
@@ -700,6 +705,14 @@ func (j *JL) Apply(l Label) bool {
 	}
 	j.emit(l.A, l, nil)
 	return true
+}
+
+// checkHung records a pass that blocked for good (it neither ended nor reached an API call): the run is abandoned there.
+func (j *JL) checkHung() {
+	if j.P.Hung && !j.hung {
+		j.hung = true
+		j.emit("Hang", Label{A: "Hang"}, nil)
+	}
 }
 
 func (j *JL) livePods() (live, terminating, all []string) {
@@ -720,6 +733,9 @@ func (j *JL) livePods() (live, terminating, all []string) {
 func (j *JL) Enabled(rng *rand.Rand, maxTime int, faultP float64, applied bool) []Label {
 	var out []Label
 	w := j.W
+	if j.hung {
+		return nil
+	}
 	q := j.P.Queues["job"]
 	k := ns + "/" + jlName
 	add := func(l Label, n int) {
@@ -784,6 +800,13 @@ func (j *JL) Enabled(rng *rand.Rand, maxTime int, faultP float64, applied bool) 
 	if job != nil && job.DeletionTimestamp == nil && rng.Intn(25) == 0 {
 		add(Label{A: "UserDelete"}, 1)
 	}
+	if live, _, _ := j.livePods(); len(live) >= 2 && j.W.API.FailPodDeletes == 0 {
+		// more likely when the controller is about to delete several tasks at once (kill, deletion of the Job)
+		stopping := job != nil && (job.Spec.KillTimestamp != nil || job.DeletionTimestamp != nil)
+		if (stopping && rng.Intn(3) == 0) || rng.Intn(20) == 0 {
+			add(Label{A: "FailDeletes"}, 2)
+		}
+	}
 	if job != nil && job.DeletionTimestamp != nil && j.O.Hold && rng.Intn(4) == 0 {
 		for _, f := range job.Finalizers {
 			if f == holdFinalizer {
@@ -824,6 +847,9 @@ func (j *JL) Enabled(rng *rand.Rand, maxTime int, faultP float64, applied bool) 
 func (j *JL) Drain(budget int) bool {
 	jumps := 0
 	for n := 0; n < budget; n++ {
+		if j.hung {
+			return false
+		}
 		w := j.W
 		q := j.P.Queues["job"]
 		k := ns + "/" + jlName
@@ -864,6 +890,9 @@ func (j *JL) Drain(budget int) bool {
 }
 
 func (j *JL) Finale(budget int) bool {
+	if j.hung {
+		return false
+	}
 	if job := j.jobObj(); job != nil && job.Status.StartTime.IsZero() && !j.rejected {
 		j.Apply(Label{A: "Start"})
 	}
